@@ -1,7 +1,7 @@
 (* Props/C01.v — property theorems only. *)
 From Coq Require Import List NArith ZArith.
 From N0 Require Import Base.PyStr Base.PyVal Xpath.Dec Xpath.DecProofs Xpath.Token Xpath.TokenProofs
-  Xpath.Find Xpath.FindProofs Xpath.Write Xpath.SpecProofs Xpath.WalkProofs Xpath.TokenizeProofs Xpath.EnumProofs Xpath.ListProofs.
+  Xpath.Find Xpath.FindProofs Xpath.Write Xpath.SpecProofs Xpath.WalkProofs Xpath.TokenizeProofs Xpath.EnumProofs Xpath.ListProofs Xpath.SpellProofs.
 Import ListNotations.
 
 (* Every spelling of a node path (one token per step or name[index] tokens; every
@@ -104,3 +104,30 @@ Theorem C01_list_rooted_resolves : forall root x p v,
   list_first (fuel_for root x) root x = Ok (root, unwrap_single (LVal v)).
 Proof. exact list_lookup_lwalk. Qed.
 Print Assumptions C01_list_rooted_resolves.
+
+(* All five index spellings of the statement — i, i-len, last(), last()-k, a+b with a+b = i — address the
+   element Python indexing would (each is an index token that evaluates to an integer z with
+   norm_idx len z = Some i), and a path spelled with any mix of them resolves, through item access,
+   get and first, to resolve root p. *)
+Theorem C01_index_spellings : forall len i si,
+  i < len -> idx_spell5 len i si ->
+  split_name_index (br si) = Ok ([], IdxStr si) /\ plain_idx si /\
+  exists z, n0eval si = EvInt z /\ norm_idx len z = Some i.
+Proof. exact idx_spell5_sound. Qed.
+Print Assumptions C01_index_spellings.
+
+Theorem C01_all_spellings_resolve :
+  forall root x p, keys_ok root -> has_path_char x = true -> no_qmark x -> tokenize x <> [] ->
+  spells5 root p (tokenize x) ->
+  exists v, resolve root p = Some v /\
+    dict_getitem (fuel_for root x) root x = Ok (root, LVal v) /\
+    dict_get_pub (fuel_for root x) root x = Ok (root, LVal v) /\
+    dict_first (fuel_for root x) root x = Ok (root, unwrap_single (LVal v)).
+Proof. exact spelled5_path_resolves. Qed.
+Print Assumptions C01_all_spellings_resolve.
+
+Theorem C01_all_spellings_nonvacuous :
+  has_path_char sp_x = true /\ no_qmark sp_x /\ tokenize sp_x <> [] /\
+  spells5 ex_root ex_p (tokenize sp_x) /\ resolve ex_root ex_p = Some (Leaf (SInt 7)).
+Proof. exact spell5_example. Qed.
+Print Assumptions C01_all_spellings_nonvacuous.
